@@ -8,9 +8,9 @@ package main
 
 import (
 	"fmt"
-	"os"
 	"go/token"
 	"go/types"
+	"os"
 	"regexp"
 	"sort"
 	"strconv"
@@ -743,7 +743,13 @@ func (m *LexModel) Instr(mc *Machine, st *State, in ssa.Instruction, ops []AV) {
 	case *ssa.Slice:
 		// source[lo:hi] — recorded with the number of runes consumed since the token start
 		if strings.HasSuffix(ops[0].S, ".source") {
-			e := m.ev(in, "slice", []string{descOpt(x.Low), descOpt(x.High)}, "")
+			norm := func(v ssa.Value) string {
+				if v == nil {
+					return ""
+				}
+				return strings.ReplaceAll(recvFieldExpr(in.Parent(), v), "$.", "s.")
+			}
+			e := m.ev(in, "slice", []string{norm(x.Low), norm(x.High)}, "")
 			e.KV["adv"] = st.Mon["adv"]
 			m.Emit(st, e)
 		}
@@ -771,7 +777,7 @@ func (m *LexModel) Branch(mc *Machine, st *State, in *ssa.If, cond AV, taken boo
 }
 
 func (m *LexModel) BackEdge(mc *Machine, st *State, from, to *ssa.BasicBlock) {
-	e := &Event{Op: "backedge", Pos: m.p.InstrPos(to.Instrs[0]), Site: to.Parent().Name() + ":b" + fmt.Sprint(to.Index), KV: map[string]string{"adv": st.Mon["adv"]}}
+	e := &Event{Op: "backedge", Pos: m.p.InstrPos(to.Instrs[0]), Site: fnName(to.Parent()) + ":b" + fmt.Sprint(to.Index), KV: map[string]string{"adv": st.Mon["adv"]}}
 	m.Emit(st, e)
 }
 
